@@ -660,7 +660,7 @@ def _(top):
     return [top.o]
 
 
-@design("adv.instances FOO,FOO + FOO_1, memory helper vs user signal storage_adr0", "thorough")
+@design("adv.instances FOO,FOO + FOO_1, memory helper vs user signal storage_adr0")
 def _(top):
     L = _lx()
     LiteXModule, Signal, Instance, Memory = L["LiteXModule"], L["Signal"], L["Instance"], L["Memory"]
@@ -672,6 +672,25 @@ def _(top):
     storage_adr0 = Signal(2, name="storage_adr0")     # user signal named like the helper register LiteX will create
     top.comb += [p.adr.eq(storage_adr0), p.dat_w.eq(L["Cat"](a, b, c)), p.we.eq(d)]
     return [d, storage_adr0, p.dat_r]
+
+
+@design("adv.memory helper registers vs user signals mem_adr0 / mem_dat1 / mem_adr2 (all sync port modes)")
+def _(top):
+    L = _lx()
+    Signal, Memory = L["Signal"], L["Memory"]
+    from migen.fhdl.specials import READ_FIRST, NO_CHANGE
+    top.mem = mem = Memory(8, 4, name="mem")
+    top.p0 = p0 = mem.get_port(write_capable=True)                        # WRITE_FIRST: helper address register
+    top.p1 = p1 = mem.get_port(write_capable=True, mode=READ_FIRST)       # helper data register
+    top.p2 = p2 = mem.get_port(mode=NO_CHANGE, write_capable=True)
+    top.p3 = p3 = mem.get_port(async_read=True)
+    u0, u1, u2 = Signal(2, name="mem_adr0"), Signal(8, name="mem_dat1"), Signal(2, name="mem_adr2")   # named like the helpers LiteX creates
+    u3, u4 = Signal(8, name="mem_dat2"), Signal(2, name="mem_adr3")
+    we = Signal(name="we")
+    top.sync += [u1.eq(p0.dat_r ^ p1.dat_r), u3.eq(p2.dat_r | p3.dat_r)]
+    top.comb += [p0.adr.eq(u0), p1.adr.eq(u2), p2.adr.eq(u4), p3.adr.eq(u0 ^ u2), p0.dat_w.eq(u1), p1.dat_w.eq(u3), p2.dat_w.eq(u1 & u3),
+                 p0.we.eq(we), p1.we.eq(we), p2.we.eq(~we)]
+    return [u0, u2, u4, we, u1, u3]
 
 
 # ---------------------------------------------------------------------------------------------------- the child
